@@ -830,3 +830,99 @@ def c19(v, tier, seed):
                      "(read/sendto intercepted) and the packet through the real listener; the recorded run is validated by TunnelTrace (Decode of the packet = frames read, "
                      "control-header length = bytes of the ACF messages, frames written = Decode, outq prefix of inq)")
     v.cov["distinct_nontrivial"] = total
+
+
+LISTENERS = {"can": "can-listener", "cvf": "cvf-listener", "aaf": "aaf-listener", "crf": "crf-listener", "hello": "hello-listener", "vss": "vss-listener"}
+
+@check("C18", "exploration")
+def c18(v, tier, seed):
+    import xprog, concurrent.futures as cf
+    rnd = random.Random(seed)
+    wd = workdir()
+    q = tier == "quick"
+    with cf.ThreadPoolExecutor(max_workers=6) as pool:
+        exes = dict(zip(LISTENERS, pool.map(lambda k: xprog.build_xh(wd, LISTENERS[k], sanitize=True), LISTENERS)))
+    all_events = []
+    ncases = 0
+    for lk in LISTENERS:
+        cfg = 'SPECIFICATION Spec\nCONSTANTS\n  Buf = {1}\n  Listener = "%s"\nCONSTRAINT Emit\nINVARIANT Sane\nCHECK_DEADLOCK FALSE\n' % lk
+        res = run_tlc("DatagramGen", cfg, wd, workers=8)
+        v.add_tlc("DatagramGen/" + lk, res)
+        if not res.ok: raise Infra("DatagramGen: " + (res.violation or "")[-800:])
+        seen, cases = set(), []
+        for cse in res.emitted:
+            k = (cse["class"], cse["m0"], cse["m1"], tuple(cse["bytes"]))
+            if k not in seen: seen.add(k); cases.append(cse)
+        goods = {}
+        for cse in cases:
+            if cse["class"].startswith("good"): goods.setdefault((cse["m0"], cse["m1"]), cse)
+        # random datagrams (seeded): arbitrary bytes and bit-flipped well-formed ones
+        nf = 60 if q else 1500
+        for i in range(nf):
+            m0, m1 = rnd.choice(list(goods.keys()))
+            if rnd.random() < 0.5:
+                b = [rnd.randrange(256) for _ in range(rnd.choice((0, 1, 4, 11, 12, 16, 28, 40, 68, 200, 1500, rnd.randrange(0, 1500))))]
+                cl = "random-bytes"
+            else:
+                b = list(goods[(m0, m1)]["bytes"])
+                for _ in range(rnd.randrange(1, 6)):
+                    if b: b[rnd.randrange(len(b))] ^= 1 << rnd.randrange(8)
+                cl = "bitflip"
+            cases.append({"class": cl, "m0": m0, "m1": m1, "m2": 0, "bytes": b})
+        ncases += len(cases)
+        lines, meta = [], []
+        for (m0, m1), g in goods.items():
+            lines.append("L %d %d 0 %s" % (m0, m1, hexs(g["bytes"]))); meta.append(("alone", g, None))
+        for cse in cases:
+            g = goods.get((cse["m0"], cse["m1"]))
+            lines.append("L %d %d 0 %s" % (cse["m0"], cse["m1"], hexs(cse["bytes"]))); meta.append(("single", cse, g))
+            if g is not None and not cse["class"].startswith("good"):
+                lines.append("L %d %d 0 %s %s" % (cse["m0"], cse["m1"], hexs(cse["bytes"]), hexs(g["bytes"]))); meta.append(("then-good", cse, g))
+        obs, err = xprog.run_xh(exes[lk], lines)
+        chunks = err.split("##CMD ")
+        rep_by_cmd = {}
+        for ch in chunks[1:]:
+            num, _, body = ch.partition("\n")
+            m = re.search(r"(?:ERROR: AddressSanitizer: |runtime error: )([^\n]*)", body)
+            fr = re.findall(r"#\d+ 0x[0-9a-f]+ in (\w+) ([^\s:]+):(\d+)", body)
+            fr = [x for x in fr if "/harness/" not in x[1]] or fr
+            if m: rep_by_cmd[int(num)] = "%s%s" % (m.group(1)[:90], (" in %s %s:%s" % (fr[0][0], os.path.basename(fr[0][1]), fr[0][2])) if fr else "")
+        alone = {}
+        for (kind, cse, g), o in zip(meta, obs):
+            if kind == "alone":
+                alone[(cse["m0"], cse["m1"])] = {"ret": o["rets"][-1:] if o["rets"] else [], "out": o["outs"][-1:] if o["outs"] else []}
+        for ci, ((kind, cse, g), o) in enumerate(zip(meta, obs)):
+            n = 2 if kind == "then-good" else 1
+            last = {"ret": o["rets"][-1:] if (o["rets"] and o["done"] == n) else [], "out": o["outs"][-1:] if (o["outs"] and o["done"] == n) else []}
+            if lk == "crf":         # the media-clock recovery is stateful by design: only survival is required of the next datagram
+                last = {"ret": [], "out": []}
+            ev = {"e": "seq", "listener": lk, "classes": [cse["class"]] + (["good"] if kind == "then-good" else []), "mode": [cse["m0"], cse["m1"]],
+                  "n": n, "status": o["status"], "done": o["done"], "lastgood": 1 if kind == "then-good" else 0,
+                  "last": last, "alone": alone.get((cse["m0"], cse["m1"]), {"ret": [], "out": []}) if lk != "crf" else {"ret": [], "out": []},
+                  "bytes": hexs(cse["bytes"])[:3200]}
+            if kind == "alone": ev["lastgood"] = 0
+            if o["status"] != "ok":
+                ev["report"] = rep_by_cmd.get(ci, "")
+            all_events.append(ev)
+    v.cov["evaluations"] += len(all_events)
+    cfgt = open(os.path.join(SPEC, "ListenerTrace.cfg")).read()
+    def keyfn(ev, evs=None, idx=None):
+        why = ev["status"].split(":")[0] if ev["status"] != "ok" else ("stuck" if ev["done"] != ev["n"] else "next-datagram-differs")
+        return "listener=%s class=%s%s outcome=%s" % (ev["listener"], ev["classes"][0], "+good" if ev["lastgood"] else "", why)
+    # group the events so that one rejection does not hide the others of the same kind: validate per listener
+    for lk in LISTENERS:
+        evs = [e for e in all_events if e["listener"] == lk]
+        # one representative per key is enough to report; validate all, resuming after each rejection (bounded)
+        pdu.validate_events(v, wd, pdu.shard(evs, 4), "C18", "listener-" + lk, module="ListenerTrace", cfg=cfgt, keyfn=keyfn)
+    # whatever the bounded resume did not reach is classified directly by the same rule (Safe), so no case is left unexamined
+    for ev in all_events:
+        if not (ev["status"] == "ok" and ev["done"] == ev["n"] and (ev["lastgood"] == 0 or ev["last"] == ev["alone"])):
+            v.violation(keyfn(ev), "%s listener, datagram class %s (mode %s)%s: %s after %d of %d datagrams %s; datagram %s" % (
+                ev["listener"], ev["classes"][0], ev["mode"], " followed by the well-formed datagram" if ev["lastgood"] else "", ev["status"], ev["done"], ev["n"],
+                ev.get("report", ""), ev["bytes"][:160]), {"event": ev})
+    v.sample({"observation": {k: all_events[0][k] for k in ("listener", "classes", "mode", "n", "status", "done")}})
+    v.cov["distinct_nontrivial"] = ncases
+    v.cov["rule"] = ("TLC enumerates the datagram grammar of DatagramGen per listener and mode (length fields 0 / off by one unit / maximum / beyond the datagram, zero-length "
+                     "and over-long ACF messages, wrong types, each validity field wrong, truncation at every structural boundary +-1, over-long datagrams, unterminated strings) "
+                     "plus seeded random and bit-flipped datagrams; each case is delivered alone and followed by the well-formed datagram to the real receive path compiled "
+                     "under ASan+UBSan with pattern-initialised locals, in a watchdog-guarded child; observations are validated by ListenerTrace (Safe)")
